@@ -521,7 +521,9 @@ fn fuzz_stage(m: &PropMeta, target: &str, runs: u64, seed: u64, work: &Path) -> 
         .current_dir(&fuzz_dir)
         .env("CARGO_NET_OFFLINE", "true")
         .env_remove("CARGO_TARGET_DIR")
-        .args(["+nightly", "fuzz", "build", target])
+        // no sanitizer: the crate has no unsafe code, and the semantic oracle inside the target is
+        // what decides; without ASan the targets run about three times as many cases per second
+        .args(["+nightly", "fuzz", "build", "-s", "none", target])
         .output();
     match build {
         Ok(o) if o.status.success() => {}
@@ -548,7 +550,7 @@ fn fuzz_stage(m: &PropMeta, target: &str, runs: u64, seed: u64, work: &Path) -> 
             .arg(format!("-runs={}", runs / jobs))
             .arg(format!("-seed={}", ((seed.wrapping_mul(31).wrapping_add(j)) % 0xffff_fff0) + 1))
             .arg("-len_control=0")
-            .arg("-max_len=128")
+            .arg("-max_len=256")
             .arg("-print_final_stats=1")
             .arg(format!("-artifact_prefix={}/", artifacts.display()))
             .env("TUV_WORK", work.join(format!("fz{j}")))
@@ -611,6 +613,6 @@ fn fuzz_stage(m: &PropMeta, target: &str, runs: u64, seed: u64, work: &Path) -> 
             }
         }
     }
-    let info = json!({"target": target, "executions": execs, "corpus_files": corpus_size, "edge_coverage": cov, "crash_artifacts": crashes, "wall_s": t0.elapsed().as_secs_f64(), "engine": "libFuzzer (cargo-fuzz build, ASan), 8 independent instances, -len_control=0, max_len 128"});
+    let info = json!({"target": target, "executions": execs, "corpus_files": corpus_size, "edge_coverage": cov, "crash_artifacts": crashes, "wall_s": t0.elapsed().as_secs_f64(), "engine": "libFuzzer (cargo-fuzz build -s none, overflow checks and debug assertions on), 8 independent instances, -len_control=0, max_len 256"});
     (info, viol, inc)
 }
